@@ -110,7 +110,11 @@ def cell(rng, acc, d, clsname, mode, sit, neigh):
             for nm, fn in (("write", lambda: rec.__setitem__("zz9", 1)), ("create_patch", rec.create_patch),
                            ("commit_patch", rec.commit_patch), ("discard_patch", rec.discard_patch),
                            ("attr write", lambda: rec.attrs.__setitem__("zz9", 1)),
-                           ("delete", lambda: rec.__delitem__("seed"))):
+                           ("delete", lambda: rec.__delitem__("seed")),
+                           # the record as reached from its own nodes is the same read-only record
+                           ("create_patch via node.file", lambda: rec["seed"].file.create_patch()),
+                           ("write via node.file", lambda: rec["seed"].file.__setitem__("zz8", 1)),
+                           ("create_patch via node.parent.file", lambda: rec["seed/x"].parent.file.create_patch())):
                 if not refuse(fn):
                     return "mode-r", f"{nm} accepted on a record opened read-only ({sit})"
                 if fsmon.dir_state(d) != s0:
